@@ -119,17 +119,26 @@ class Arena:
             self._nonneg = nn
         return self._nonneg
 
-    def float_values(self, vars_):
-        """floating-point value of every node at the given input values (dict name -> 'p/q'); None where undefined"""
+    def float_values(self, vars_, dps=0):
+        """value of every node at the given input values (dict name -> 'p/q'); None where undefined.
+        dps = 0: machine floats; dps > 0: mpmath with that many decimal digits (exact enough to re-check decisions)"""
         import math
+        if dps:
+            import mpmath
+            mpmath.mp.dps = dps
+            conv = lambda q: mpmath.mpf(q.numerator) / mpmath.mpf(q.denominator)
+            sqrt = lambda x: mpmath.sqrt(x) if x >= 0 else (mpmath.mpf(0) if x > -1e-30 else None)
+        else:
+            conv = float
+            sqrt = lambda x: math.sqrt(x) if x >= 0 else None
         val = [None] * len(self.nodes)
         for i, n in enumerate(self.nodes):
             k = n[0]
             try:
                 if k == "c":
-                    val[i] = float(Fraction(n[1]))
+                    val[i] = conv(Fraction(n[1]))
                 elif k == "v":
-                    val[i] = float(Fraction(vars_[n[1]]))
+                    val[i] = conv(Fraction(vars_[n[1]]))
                 elif k == "+":
                     val[i] = val[n[1]] + val[n[2]]
                 elif k == "-":
@@ -143,7 +152,7 @@ class Arena:
                 elif k == "abs":
                     val[i] = abs(val[n[1]])
                 elif k == "sqrt":
-                    val[i] = math.sqrt(val[n[1]]) if val[n[1]] >= 0 else None
+                    val[i] = sqrt(val[n[1]])
             except (TypeError, ZeroDivisionError, KeyError, OverflowError, ValueError):
                 val[i] = None
         return val
@@ -545,6 +554,8 @@ class FF:
             elif k in ("+", "-"):
                 x, y = n[1], n[2]
                 lcm = self._lcm(self.den[x], self.den[y])
+                if sum(lcm.values()) > 48:
+                    raise ToolFailure("fraction-free encoding: denominator monomial too large")
                 tx = self._times(self.num[x], self._quot(lcm, self.den[x]))
                 ty = self._times(self.num[y], self._quot(lcm, self.den[y]))
                 L.append(f"(define-fun ff_{i} () Real ({k} {tx} {ty}))")
@@ -554,6 +565,8 @@ class FF:
                 d = dict(self.den[x])
                 for kk, e in self.den[y].items():
                     d[kk] = d.get(kk, 0) + e
+                if sum(d.values()) > 48:
+                    raise ToolFailure("fraction-free encoding: denominator monomial too large")
                 L.append(f"(define-fun ff_{i} () Real (* {self.num[x]} {self.num[y]}))")
                 self.num[i], self.den[i] = f"ff_{i}", d
             elif k == "/":
